@@ -30,3 +30,9 @@ contract("C15.has_same_tags", file=Q, func="SearchResult.has_same_tags",
          params={"self": "SearchResult", "other": "SearchResult"}, returns="Bool", enc="native",
          ensures={"C15.same.iff_same_group_and_identical_tags": "result == (self.group == other.group and len(self.tags) == len(other.tags)"
                                                                 " and all(self.tags[k] is other.tags[k] for k in range(len(self.tags))))"})
+
+# C15 "repeated searches agree / the answer for one annotation does not depend on the annotations around it": the factor loops treat
+# every (query, annotation) pair on its own (def-before-use analysis of the real loop bodies; the table df_factors is only written per cell)
+contract("C15.rows_searched_independently", file="hed/models/query_service.py", func="search_hed_objs",
+         params={"hed_objs": "Opaque", "queries": "Opaque", "query_names": "Opaque"}, returns="Opaque", enc="native",
+         ghost={"dataflow_only": True, "no_frame": True, "independent_iterations": {0: ["df_factors"], 1: ["df_factors"]}}, ensures={})
